@@ -12,6 +12,7 @@ type errTest struct {
 	If         *ssa.If
 	NonNilSucc *ssa.BasicBlock
 	NilSucc    *ssa.BasicBlock
+	Val        ssa.Value // the value compared with nil (the error itself, or a phi / reload of it)
 }
 
 // errTestsOf finds the nil tests applied to an error value (following phis and
@@ -35,7 +36,7 @@ func errTestsOf(errVal ssa.Value) []errTest {
 				for _, rr := range referrers(x) {
 					if ifi, ok := rr.(*ssa.If); ok {
 						b := ifi.Block()
-						t := errTest{If: ifi}
+						t := errTest{If: ifi, Val: v}
 						if neq {
 							t.NonNilSucc, t.NilSucc = b.Succs[0], b.Succs[1]
 						} else {
@@ -109,8 +110,22 @@ func nonZeroExit(i ssa.Instruction) bool {
 // non-zero os.Exit, and that no `forbidden` instruction is passed first.
 // Returns a list of offending path ends.
 func failsLoudly(from *ssa.BasicBlock, allowReturnErr bool, forbidden func(ssa.Instruction) bool) []string {
+	return failsLoudlyKnowing(from, allowReturnErr, forbidden, nil)
+}
+
+// failsLoudlyKnowing is failsLoudly with the knowledge that a particular error value is
+// non-nil: at a later nil test of that very value only the non-nil successor is followed.
+func failsLoudlyKnowing(from *ssa.BasicBlock, allowReturnErr bool, forbidden func(ssa.Instruction) bool, known []errTest) []string {
 	var offending []string
 	q := &pathQuery{
+		blockEdge: func(b, to *ssa.BasicBlock) bool {
+			for _, t := range known {
+				if t.If.Block() == b && t.NonNilSucc != t.NilSucc {
+					return to == t.NonNilSucc
+				}
+			}
+			return true
+		},
 		witness: func(i ssa.Instruction) bool {
 			if nonZeroExit(i) {
 				return true
@@ -170,7 +185,14 @@ func checkCallErrHandled(call *ssa.Call, allowReturnErr bool, forbidden func(ssa
 		return false, "error result is never compared with nil"
 	}
 	for _, t := range tests {
-		if off := failsLoudly(t.NonNilSucc, allowReturnErr, forbidden); len(off) > 0 {
+		// tests of the very same SSA value (not of a phi / reload): there the error stays non-nil
+		var same []errTest
+		for _, t2 := range tests {
+			if t2.Val == t.Val {
+				same = append(same, t2)
+			}
+		}
+		if off := failsLoudlyKnowing(t.NonNilSucc, allowReturnErr, forbidden, same); len(off) > 0 {
 			return false, fmt.Sprintf("non-nil error branch does not fail on every path: %v", off)
 		}
 	}
